@@ -36,6 +36,9 @@ PAIRS_CORE = [
     ([3, 6, 9, 12, 15], [3, 6, 9, 12, 15, 18]),              # strided nested, union strided range
     ([1, 2, 3, 4, 6], [1, 2, 3, 4, 5, 6]),                   # irregular nested in range
     ([1, 3, 4, 5, 7], [2, 3, 5, 6, 8]),                      # two irregular, partly overlapping
+    ([1, 2, 3, 4, 5], [8, 9, 10, 11, 12]),                   # disjoint contiguous ranges with a gap: union is not a range
+    ([1, 3, 5, 7, 9], [15, 17, 19, 21, 23]),                 # disjoint strided ranges on the same grid with a gap
+    ([2, 4, 6, 8, 10], [13, 15, 17, 19, 21]),                # disjoint strided ranges on different grids
 ]
 
 # multi-chain operand pairs (layout dicts)
